@@ -71,7 +71,9 @@ class Canon:
             if isinstance(v, (float, np.floating)) and float(v).is_integer():
                 v = int(v)
         if isinstance(v, (int, np.integer)):
-            return f"int:{int(v)}{st}"
+            # (no type suffix, not even in typed mode: integers of every type
+            # are identified by value by ==, by hash() and by the key builder)
+            return f"int:{int(v)}"
         if isinstance(v, (float, np.floating)):
             return f"float:{float(v)!r}{st}"
         if isinstance(v, (complex, np.complexfloating)):
